@@ -243,7 +243,9 @@ func (e *explorer[S]) dfs(s S, rem int, path []string) {
 		np := append(path, l.Name)
 		e.record(np, l, outcome)
 		if v != nil {
-			e.violation(v, np)
+			if !strings.HasPrefix(v.Clause, "cut:") { // "cut:" = path deliberately stopped, not a violation
+				e.violation(v, np)
+			}
 			continue
 		}
 		e.dfs(child, rem-1, np)
@@ -344,7 +346,9 @@ func Explore[S any](sys Sys[S], opt Options) (*Report, error) {
 				np := append(append([]string{}, path...), l.Name)
 				e.record(np, l, outcome)
 				if v != nil {
-					e.violation(v, np)
+					if !strings.HasPrefix(v.Clause, "cut:") {
+						e.violation(v, np)
+					}
 					continue
 				}
 				gen(child, rem-1, lvl+1, np)
@@ -456,6 +460,9 @@ func Replay[S any](sys Sys[S], names []string) (outcomes []string, v *Violation,
 		}
 		child, outcome, v := sys.Step(s, *found)
 		outcomes = append(outcomes, outcome)
+		if v != nil && strings.HasPrefix(v.Clause, "cut:") {
+			return outcomes, nil, nil
+		}
 		if v != nil {
 			v.Path = append([]string{}, names[:i+1]...)
 			return outcomes, v, nil
